@@ -19,15 +19,24 @@ def reset_registries():
     tbr.reset_global_functions()
 
 
+_LOADS = [0]
+
+
 def load_library(lib: Library):
-    # a real module, as a user's classes live in one: classes made by `exec` in a bare dict get __module__ == 'builtins',
-    # which the library (rightly) takes for a builtin type - parameterized properties were never followed in that set-up
+    # alternately a real module, as a user's classes live in one, and a bare namespace without __name__ (a notebook cell run
+    # through exec, a plugin loader): there the classes get __module__ == 'builtins', and the library must still tell them
+    # from Python's builtin classes (wave-10 review of repo fixes d29231e / fc0c019: a test on __module__ alone stopped
+    # following every method call and parameterized property of such classes)
     import sys
     import types
 
-    m = types.ModuleType("verif_class_model")
-    sys.modules["verif_class_model"] = m
-    ns = m.__dict__
+    _LOADS[0] += 1
+    if _LOADS[0] % 2 == 0:
+        ns = {}
+    else:
+        m = types.ModuleType("verif_class_model")
+        sys.modules["verif_class_model"] = m
+        ns = m.__dict__
     exec(compile(lib.source(), "<class-model>", "exec"), ns)
     return ns
 
